@@ -120,6 +120,7 @@ var verifC18Seeds = [...]string{
 	`param a; f := func(x) { if x { return "s" }; return [1.5, 'c', 2u] }; return f(a)`,
 	`param a; try { return {k: a}[a] } catch e { return string(e) } finally { a = 0 }`,
 	`m := import("src1"); m.add(3); return m.get()`,
+	`b := import("bmod"); return [b.fn(1), b.sub.fn(2), b.s]`,
 }
 
 func verifSeedBytes(i int) []byte {
